@@ -15,7 +15,7 @@ META = {
             "stated rule (decided by C01/C02 for the parser, guarded by a dominating check, tracing metadata), matches a reviewed entry, or is "
             "reported; Q2 the side tables of InferenceResult are read with get(), never indexed; Q3 every cycle of the salsa query graph "
             "consists of queries that have cycle recovery; Q5 recursion that follows user-written references (type aliases) carries a "
-            "visited-set guard. One obligation per site / query / recursive function. Verifier-style. Q7/Q8 = C11 H6/H7 (equality of query values).",
+            "visited-set guard. One obligation per site / query / recursive function. Verifier-style. Q7/Q8 = C11 H6/H7 (equality of query values). Q12 = C02 P2 (no parser loop stands still: the progress guard is reachable through deep nesting only). Q11 = C09 Y6 (complete inference groups: part of the cut of the infer cycle). Q10 every cycle of the query graph has a cut that keeps it from happening (recovery does not survive memo validation). Q9 no path through a recursive function descends twice into the same child of its input (linear, not 2^depth, work: the 11 queries answer on deeply nested annotations).",
     "explanation": "Engine G lists every unwrap/expect/index/asserting-API call, MIR arithmetic or bounds assert and explicit panic that "
                    "the 11 queries can reach and demands a justification for each; the salsa query graph is rebuilt from the generated "
                    "QueryFunction::execute bodies and checked for cycles without recovery (a cycle panics in every query touching it). "
@@ -37,6 +37,58 @@ def in_parser(p):
     return p.startswith("syntax::parser::") or p.startswith("syntax::token_set::") or p.startswith("syntax::kind::")
 
 
+def query_graph(F):
+    """(queries, graph, recover set, sccs) of the derived salsa queries: edges from the generated QueryFunction::execute bodies"""
+    ex = {p: p[1:p.index(" as ")] for p in F.fns if p.endswith("salsa::plumbing::QueryFunction>::execute")}
+    cg = F.callgraph()
+    graph = {}
+    for e, q in ex.items():
+        st, seen_q, outs = [e], {e}, set()
+        while st:
+            x = st.pop()
+            for y in cg.get(x, ()):
+                if y in ex and y != e:
+                    outs.add(ex[y])
+                    continue
+                if y in ex and y == e and x != e:
+                    outs.add(q)
+                    continue
+                if y not in seen_q:
+                    seen_q.add(y)
+                    st.append(y)
+        graph[q] = outs
+    recover = {p[1:p.index(" as ")] for p in F.fns if p.endswith("salsa::plumbing::QueryFunction>::recover")}
+    # SCCs
+    sccs = []
+    index, low, on, stack, cnt = {}, {}, set(), [], [0]
+
+    def sc(v):
+        index[v] = low[v] = cnt[0]
+        cnt[0] += 1
+        stack.append(v)
+        on.add(v)
+        for w in graph.get(v, ()):
+            if w not in index:
+                sc(w)
+                low[v] = min(low[v], low[w])
+            elif w in on:
+                low[v] = min(low[v], index[w])
+        if low[v] == index[v]:
+            comp = []
+            while True:
+                w = stack.pop()
+                on.discard(w)
+                comp.append(w)
+                if w == v:
+                    break
+            if len(comp) > 1 or v in graph.get(v, ()):
+                sccs.append(sorted(comp))
+    for v in sorted(graph):
+        if v not in index:
+            sc(v)
+    return ex, graph, recover, sccs
+
+
 def run(F, res, tier):
     reviewed = R.load_reviewed().get("C10", {})
     ents = entries(F)
@@ -50,6 +102,12 @@ def run(F, res, tier):
     INV = Inventory(F, reviewed, "Q1/")
     PR = pcache.results(F)
     parser_ok = not PR["panic_sites"] and not PR["unknown_calls"]
+    # the progress guard in Parser::nth is a known finding for deep nesting only (C02/P5b): a loop that can go round without
+    # consuming makes it fire on short inputs, in every query on the file
+    lv = PR.get("loop_viol") or {}
+    res.ob("Q12", "parser-loops-progress", "every loop of the parser consumes a token per iteration (C02/P2): the progress guard `parser is stuck` is not "
+           "reachable through a loop that stands still", not lv, where="crates/syntax/src/parser.rs",
+           how="loops that can go round without consumption: %s" % sorted(lv)[:6] if lv else "all %d loops progress" % sum(len(v) for v in PR["loops"].values()))
     n = 0
     for p in sorted(seen):
         f = F.fns[p]
@@ -104,55 +162,9 @@ def run(F, res, tier):
         res.ob("Q2", name, "InferenceResult::%s tolerates ids the inferencer never visited (reads the side table with get())" % name,
                not idx and bool(gets), where=f.loc(), how="index sites %d, get() sites %d" % (len(idx), len(gets)))
     # ---- Q3
-    ex = {p: p[1:p.index(" as ")] for p in F.fns if p.endswith("salsa::plumbing::QueryFunction>::execute")}
+    ex, graph, recover, sccs = query_graph(F)
     res.floor("derived salsa queries", len(ex), 13)
-    cg = F.callgraph()
-    graph = {}
-    for e, q in ex.items():
-        st, seen_q, outs = [e], {e}, set()
-        while st:
-            x = st.pop()
-            for y in cg.get(x, ()):
-                if y in ex and y != e:
-                    outs.add(ex[y])
-                    continue
-                if y in ex and y == e and x != e:
-                    outs.add(q)
-                    continue
-                if y not in seen_q:
-                    seen_q.add(y)
-                    st.append(y)
-        graph[q] = outs
     res.analysed["query_graph"] = {q.rsplit("::", 1)[-1]: sorted(x.rsplit("::", 1)[-1] for x in o) for q, o in sorted(graph.items())}
-    recover = {p[1:p.index(" as ")] for p in F.fns if p.endswith("salsa::plumbing::QueryFunction>::recover")}
-    # SCCs
-    sccs = []
-    index, low, on, stack, cnt = {}, {}, set(), [], [0]
-
-    def sc(v):
-        index[v] = low[v] = cnt[0]
-        cnt[0] += 1
-        stack.append(v)
-        on.add(v)
-        for w in graph.get(v, ()):
-            if w not in index:
-                sc(w)
-                low[v] = min(low[v], low[w])
-            elif w in on:
-                low[v] = min(low[v], index[w])
-        if low[v] == index[v]:
-            comp = []
-            while True:
-                w = stack.pop()
-                on.discard(w)
-                comp.append(w)
-                if w == v:
-                    break
-            if len(comp) > 1 or v in graph.get(v, ()):
-                sccs.append(sorted(comp))
-    for v in sorted(graph):
-        if v not in index:
-            sc(v)
     res.floor("query cycles found (positive control: module_scope <-> module_scope_with_map)", len(sccs), 1)
     for comp in sccs:
         missing = [q for q in comp if q not in recover]
@@ -160,6 +172,7 @@ def run(F, res, tier):
                "every query on this cycle of the salsa query graph has cycle recovery (else a cyclic workspace panics 'cycle detected' in every query)",
                not missing, where="crates/ide/src/def/mod.rs, crates/ide/src/ty/mod.rs",
                how="all %d queries recover" % len(comp) if not missing else "no #[salsa::cycle] on %s" % [q.rsplit("::", 1)[-1] for q in missing])
+    cycles_are_cut(F, res, sccs)
     for q in sorted(graph):
         if not any(q in c for c in sccs):
             res.ob("Q3", "acyclic/" + q.rsplit("::", 1)[-1], "this query cannot reach itself through other queries", True,
@@ -172,6 +185,9 @@ def run(F, res, tier):
     # visibility, an id or an order changed leaves the dependents with the old answer
     from rules import c11 as _c11
     _c11.value_equality_rules(F, res, rule="Q7", rule2="Q8")
+    no_double_descent(F, res)
+    from rules import c09 as _c09
+    _c09.groups_scan_every_body(F, res, rule="Q11")
 
 
 TREE = {
@@ -343,3 +359,289 @@ def declared_everywhere(F, res):
     res.ob("Q6", "groups-over-declarations", "dependency_order_query lists the file's functions from ModuleScope::declarations() (every "
            "declaration), not from the name-indexed value table", "ModuleScope::declarations" in cs and "ModuleScope::values" not in cs,
            where=dq[0].loc(), how="enumerates through %s" % sorted(c for c in cs if c.startswith("ModuleScope::")))
+
+
+# ---- Q9: no child is descended into twice
+THROUGH = ("Clone>::clone", "Deref>::deref", "::iter", "IntoIterator>::into_iter", "Iterator>::next", "::get", "::first", "::last",
+           "unwrap_or", "::as_ref", "::as_deref", "::as_slice", "::rev", "::enumerate", "::skip", "::cloned", "::copied", "::unwrap",
+           "::expect", "Try>::branch", ">::index")
+
+
+def _steps(o, d=None, depth=0):
+    """(root parameter, steps) of an operand's origin: the field names projected and the elements selected on the way from a
+    parameter to the operand. ('elem', selector, loop block): selector = a constant index, 'all' for an iterator or a computed
+    index. Wrappers (`Some`, `Ok` and their payload field, clone/deref/unwrap) are left out."""
+    if o.get("k") == "field":
+        r = _steps(o["base"], d, depth + 1)
+        if r is None:
+            return None
+        root, st = r
+        st = list(st)
+        names = [str(e.get("n", e.get("f", e.get("dc", "?")))) if isinstance(e, dict) else str(e) for e in o["proj"]]
+        skip = False
+        for n in names:
+            if skip and n == "0":
+                skip = False
+                continue
+            skip = n in ("Some", "Ok", "Continue")
+            if not skip:
+                st.append(n)
+    elif o.get("k") == "arg":
+        root, st = "arg%d" % o["n"], []
+    elif o.get("k") == "call" and d is not None and depth < 12 and len(o["t"]["args"]) == 1 and \
+            (callee(o["t"]) or "").startswith(("syntax::ast::", "<syntax::ast::")):
+        # a typed accessor of the syntax tree: a named child of the node it is called on
+        r = _steps(d.origin_op(o["t"]["args"][0], THROUGH), d, depth + 1)
+        if r is None:
+            return None
+        root, st = r[0], list(r[1]) + [FL.short(callee(o["t"])) + "()"]
+    else:
+        return None
+    for b, t in o.get("via_t", []):
+        c = FL.short(callee(t) or callee_def(t) or "")
+        last = c.rsplit("::", 1)[-1]
+        if c.endswith("Iterator::next"):
+            st.append(("elem", "all", b))
+        elif last in ("get", "index") and len(t["args"]) > 1:
+            k = t["args"][1].get("k") if isinstance(t["args"][1], dict) else None
+            st.append(("elem", k["bits"] if k and "bits" in k else "all", None))
+        elif last == "first":
+            st.append(("elem", 0, None))
+        elif last == "last":
+            st.append(("elem", -1, None))
+    return root, st
+
+
+def _container(o, d=None):
+    r = _steps(o, d)
+    if r is None or not r[1] or all(isinstance(x, tuple) for x in r[1]) and r[0] == "arg1" and False:
+        return None
+    return (r[0], tuple(r[1]))
+
+
+def _same_child(s1, s2):
+    """None if the two sources cannot be the same child; else the loop block they share (conflict only inside one iteration)
+    or 0 (conflict on any path)."""
+    if s1[0] != s2[0] or len(s1[1]) != len(s2[1]):
+        return None
+    shared = 0
+    for a, b in zip(s1[1], s2[1]):
+        if isinstance(a, tuple) != isinstance(b, tuple):
+            return None
+        if not isinstance(a, tuple):
+            if a != b:
+                return None
+            continue
+        if a[2] is not None and a[2] == b[2]:
+            shared = a[2]
+        elif a[1] != "all" and b[1] != "all" and a[1] != b[1]:
+            return None
+    return shared
+
+
+def no_double_descent(F, res, rule="Q9"):
+    """Q9: the recursive functions walk trees the user wrote (type annotations, expressions, patterns). Q5 shows that each walk
+    ends; this rule shows that it is linear: on one path through a function of a recursive cycle, no two calls into the cycle
+    descend into the same child - the same element of the same field of the same parameter. Two descents into one child make
+    the work double with every level of nesting: `List(List(..45 deep..))` took 2^45 steps in a loop without a cancellation
+    point, so the query never answered and the next edit waited for it for ever.
+    Sites in one loop body take different elements per iteration and conflict only inside one iteration; a loop over a field
+    conflicts with any other descent into that field; `get(0)` and `get(1)` do not conflict."""
+    cg = F.callgraph()
+
+    def parent(p):
+        return p.split("::{closure")[0]
+    local = ("ide::", "<ide::", "syntax::", "<syntax::", "glas::", "<glas::")
+    nodes = {parent(p) for p, f in F.fns.items() if f.blocks and p.startswith(local)}
+    adj = {n: set() for n in nodes}
+    for p, cs in cg.items():
+        if parent(p) in adj:
+            adj[parent(p)] |= {parent(c) for c in cs if parent(c) in adj}
+    import sys
+    sys.setrecursionlimit(100000)
+    index, low, on, stack, comps, cnt = {}, {}, set(), [], [], [0]
+
+    def sc(v):
+        index[v] = low[v] = cnt[0]
+        cnt[0] += 1
+        stack.append(v)
+        on.add(v)
+        for w in sorted(adj[v]):
+            if w not in index:
+                sc(w)
+                low[v] = min(low[v], low[w])
+            elif w in on:
+                low[v] = min(low[v], index[w])
+        if low[v] == index[v]:
+            comp = []
+            while True:
+                w = stack.pop()
+                on.discard(w)
+                comp.append(w)
+                if w == v:
+                    break
+            if len(comp) > 1 or v in adj[v]:
+                comps.append(sorted(comp))
+    for v in sorted(nodes):
+        if v not in index:
+            sc(v)
+    sccof = {p: i for i, cm in enumerate(comps) for p in cm}
+    res.floor("recursive cycles of the call graph (closures folded into their functions)", len(comps), 100)
+    nsites = nfn = 0
+    for p, f in sorted(F.fns.items()):
+        if not f.blocks or parent(p) not in sccof or f.d["span"].get("exp"):
+            continue
+        d = FL.Defs(f)
+        sites = []
+        for b, t in f.calls():
+            c = callee(t)
+            if not c or "{closure" in c or sccof.get(parent(c)) != sccof[parent(p)]:
+                continue
+            srcs = {s for s in (_container(d.origin_op(a, THROUGH), d) for a in t["args"]) if s}
+            if srcs:
+                sites.append((b, t, srcs))
+        if not sites:
+            continue
+        nfn += 1
+        nsites += len(sites)
+        bad = []
+        for i, (b1, t1, s1) in enumerate(sites):
+            for b2, t2, s2 in sites[i + 1:]:
+                for x1 in s1:
+                    for x2 in s2:
+                        it = _same_child(x1, x2)
+                        if it is None:
+                            continue
+                        if it:
+                            # one loop: the sites take the same element only inside one iteration
+                            hit = b1 != b2 and (f.can_reach(b1, [b2], avoid=[it]) or f.can_reach(b2, [b1], avoid=[it]))
+                        else:
+                            hit = b1 == b2 or f.can_reach(b1, [b2]) or f.can_reach(b2, [b1])
+                        if hit:
+                            bad.append("%s.%s is descended into at line %d and again at line %d" % (
+                                x1[0], ".".join(y if isinstance(y, str) else "[%s]" % y[1] for y in x1[1]), t1["ln"], t2["ln"]))
+        res.ob(rule, "single-descent/" + FL.short(p), "no path through %s descends twice into the same child of its input" % FL.short(p),
+               not bad, where=f.loc(), how="; ".join(sorted(set(bad))) if bad else "%d descents from fields of the parameters, pairwise into different children" % len(sites))
+    res.floor("recursive functions that descend into fields of their parameters", nfn, 18)
+    res.analysed["descents_from_parameter_fields"] = nsites
+
+
+# ---- Q10: a cycle of the query graph must not be able to happen
+def _closure_tests(F, f, d):
+    """switches on the answer of a membership test whose receiver comes from the import_closure query: [(block of the test, target
+    when the importer is in the closure, target when it is not)]"""
+    out = []
+    for b, t in f.calls():
+        if t.get("dty") != "bool" or not t["args"]:
+            continue
+        dep = FL.depends(F, f, d, t["args"][0])
+        if not any(x.endswith("import_closure") for x in dep["calls"]):
+            continue
+        for sb in range(len(f.blocks)):
+            st = f.term(sb)
+            if f.blocks[sb]["cleanup"] or st.get("k") != "switch":
+                continue
+            o = d.origin_op(st["op"])
+            if o.get("k") == "call" and o.get("bb") == b:
+                e = dict(FL.switch_edges(st))
+                out.append((b, e.get("otherwise"), e.get(0)))
+    return out
+
+
+def cycles_are_cut(F, res, sccs=None, rule="Q10"):
+    """Q10: cycle recovery (#[salsa::cycle], Q3) only works while a query of the cycle *executes*. When salsa re-validates a
+    memoised result that lies on a cycle - after any edit - the query is marked in progress without being on the query stack,
+    the cycle comes back to it and salsa 0.17 panics (runtime.rs report_unexpected_cycle: rposition(..).unwrap()); every query
+    touching the modules panics until one of them is edited. So each cycle of the static query graph needs a cut that keeps it
+    from happening on any workspace:
+      module_scope <-> module_scope_with_map: the scope of another module is asked for, and the name of another module is made
+        resolvable, only after the import_closure query (which reads import lists only and is on no cycle) said that the
+        imported module does not import the importer back;
+      infer_function <-> infer_function_group: the type of another function is asked for only after the function was not found
+        in the group being inferred (functions of other modules are reachable through resolved imports only, cut above).
+    A new cycle without a registered cut is reported."""
+    from lib import inline as IL
+    if sccs is None:
+        sccs = query_graph(F)[3]
+    known = {}
+
+    def scope_cut():
+        f0 = F.fn("ide::def::scope::module_scope_with_map_query")
+        f = IL.inlined(F, f0, want=lambda p: p.startswith("ide::def::scope::") and "import_closure_query" not in p, depth=2)
+        d = FL.Defs(f)
+        tests = _closure_tests(F, f, d)
+        asks = [(b, t) for b, t in f.calls() if (callee(t) or callee_def(t) or "").endswith("DefDatabase::module_scope")]
+        why = []
+        if not tests:
+            why.append("no membership test on the answer of import_closure")
+        if not asks:
+            why.append("no module_scope call found (anchor)")
+        for b, t in asks:
+            if not any(no is not None and yes is not None and f.dominates(no, b) and not f.dominates(yes, b) and no != yes for _tb, yes, no in tests):
+                why.append("module_scope asked at line %d without the import_closure test having answered no" % t["ln"])
+        # module names: an insertion into the name -> file map happens, in one iteration, only if a test said `not cyclic` or
+        # the file is the importer itself
+        ins = [(b, t) for b, t in f.calls() if "IndexMap::<smol_str::SmolStr, ide::base::FileId>::insert" in ((t.get("fn") or {}).get("full") or "")]
+        if not ins:
+            why.append("no insertion into ModuleScope.modules found (anchor)")
+        nexts = [b for b, t in f.calls() if FL.short(callee(t) or callee_def(t) or "").endswith("Iterator::next")]
+        for b, t in ins:
+            heads = [n for n in nexts if f.can_reach(n, [b]) and f.can_reach(b, [n])]
+            for _tb, yes, no in tests:
+                if yes is not None and f.can_reach(yes, [b], avoid=heads):
+                    why.append("the module name is inserted at line %d although import_closure contained the importer" % t["ln"])
+            free = [x for _tb, yes, no in tests for x in [no] if x is not None]
+            # the only other way to the insertion: the imported file is the importer (a module importing itself keeps its name)
+            selfs = []
+            for sb in range(len(f.blocks)):
+                st = f.term(sb)
+                if f.blocks[sb]["cleanup"] or st.get("k") != "switch":
+                    continue
+                o = d.origin_op(st["op"])
+                if o.get("k") == "call" and FL.short(callee(o["t"]) or callee_def(o["t"]) or "").rsplit("::", 1)[-1] in ("ne", "eq"):
+                    e = dict(FL.switch_edges(st))
+                    same = e.get(0) if FL.short(callee(o["t"]) or callee_def(o["t"])).endswith("ne") else e.get("otherwise")
+                    if same is not None:
+                        selfs.append(same)
+            for h in heads:
+                if f.can_reach(h, [b], avoid=free + selfs + [x for x in heads if x != h]) and h not in free + selfs:
+                    # a path from the loop head to the insertion that passes neither a `not cyclic` answer nor `same file`
+                    # (ignore the trivial case where the insertion is itself the avoided block)
+                    if b not in free + selfs:
+                        why.append("the module name is inserted at line %d on a path without the import_closure test" % t["ln"])
+        return not why, "; ".join(why) or "%d module_scope calls and %d name insertions, each behind the import_closure test (%d tests)" % (len(asks), len(ins), len(tests))
+
+    def infer_cut():
+        why, n = [], 0
+        for p, f in sorted(F.fns.items()):
+            if not p.startswith("ide::ty::infer::InferCtx") or not f.blocks:
+                continue
+            d = None
+            for b, t in f.calls():
+                c = callee(t) or callee_def(t) or ""
+                if not (c.endswith("hir::Function::ty") or c.endswith("TyDatabase::infer_function") or c.endswith("TyDatabase::infer_function_group")):
+                    continue
+                n += 1
+                d = d or FL.Defs(f)
+                ok = False
+                for g in FL.gates(F, f, [b], d):
+                    gc = FL.short(g.get("callee") or "")
+                    if gc.rsplit("::", 1)[-1] in ("find", "position", "contains", "any") and g["allowed"] in (["None"], [False]):
+                        dep = FL.fields_feeding(F, f, d, g["call_t"]["args"][0], "InferCtx") if g["call_t"]["args"] else set()
+                        ok = ok or "group" in {str(x).rsplit(".", 1)[-1] for x in dep}
+                if not ok:
+                    why.append("%s asks for the type of a function at line %d without having looked it up in the group being inferred" % (FL.short(p), t["ln"]))
+        if n < 2:
+            why.append("fewer than 2 type lookups of functions found in InferCtx (anchor)")
+        return not why, "; ".join(why) or "%d lookups of another function's type, each after the group was searched without success" % n
+
+    known["ModuleScopeQuery+ModuleScopeWithMapQuery"] = scope_cut
+    known["InferFunctionGroupQuery+InferFunctionQuery"] = infer_cut
+    for comp in sccs:
+        key = "+".join(q.rsplit("::", 1)[-1] for q in comp)
+        if key in known:
+            ok, why = known[key]()
+        else:
+            ok, why = False, "no cut is known for this cycle of the query graph: recovery alone does not survive memo validation"
+        res.ob(rule, "cut/" + key, "this cycle of the query graph cannot happen on any workspace (salsa panics when it re-validates a memo "
+               "on a cycle, recovery or not)", ok, where="crates/ide/src/def/scope.rs, crates/ide/src/ty/infer.rs", how=why)
